@@ -11,7 +11,7 @@ import itertools
 
 import numpy as np
 
-from mc import ana, framework as fw, pairhist, records
+from mc import ana, api, framework as fw, pairhist, records
 
 PROPERTY = "C05"
 META = {
@@ -199,7 +199,7 @@ def _one(case, full=True, light_single=False):
                     continue
                 out["evals"] += 1
                 out["extra"]["single_bin"] += 1
-                sd = sb._data
+                sd = api.raw(sb)
                 Ls = int(sd["L"][0])
                 Ds = np.asarray(sd["D"][0], dtype=np.int64)
                 prob = []
